@@ -341,9 +341,11 @@ def run_cfw_case(case: Dict[str, Any]) -> Dict[str, Any]:
     extset = set(objs.values())
     cfw = _mk_cfw(extset)
     order = [x.ident for x in cfw.function_extender]
+    # a registered extender that is not in the set any more (instances comparing equal collapse) can never be invoked
+    lost = sorted(set(objs) - set(order))
     fs = FeatureSet()
     fs.add(Feature("x"))
-    res: Dict[str, Any] = {"order": order, "prio": {str(i): o.priority for i, o in objs.items()}, "hooks": {}}
+    res: Dict[str, Any] = {"order": order, "lost": lost, "prio": {str(i): o.priority for i, o in objs.items()}, "hooks": {}}
     for hk in HOOKS:
         sel = cfw.get_function_extender(ExtenderHook[hk])
         if sel is None:
@@ -421,6 +423,8 @@ def check_cfw(ctx: Ctx, cases: List[Dict[str, Any]]) -> None:
         n = len(c["exts"])
         nm = {hk: sum(hk in e["wraps"] for e in c["exts"]) for hk in HOOKS}
         ctx.case("cfw", c, max(nm.values(), default=0) >= 2 or any(e["beh"] != "pass" for e in c["exts"]), cfw_n_ext=n, max_matching=max(nm.values(), default=0))
+        if im.get("lost"):
+            ctx.violation("cfw", c, f"registered extender(s) {im['lost']} never invoked: {n} distinct Extender instances were registered, the set holds {len(im['order'])}", im["order"])
         for hk in HOOKS:
             h = im["hooks"][hk]
             if outs is not None:
@@ -705,7 +709,8 @@ def run_plan_once(plan: Dict[str, Any], mode: str, exts: Optional[List[Dict[str,
     out["order"] = order
     out["info"] = info
     if extset is not None:
-        out["prio"] = {str(o.ident): o.priority for o in extset}
+        out["prio"] = {str(o.ident): o.priority for o in objs}
+        out["lost"] = sorted({o.ident for o in objs} - set(order or []))
     return out
 
 
@@ -799,6 +804,8 @@ def oracle_e2e(ctx: Ctx, case: Dict[str, Any], run: Dict[str, Any], base: Dict[s
     ex = [{"id": e["id"], "prio": pr[str(e["id"])], "beh": e["beh"], "wraps": e["wraps"]} for e in exts]
     nm = {hk: [e for e in ex if hk in e["wraps"]] for hk in HOOKS}
     unprotected = any(len(nm[hk]) == 1 and nm[hk][0]["beh"] != "pass" for hk in HOOKS)
+    if run.get("lost"):
+        ctx.violation("e2e", case, f"{case['mode']}: registered extender(s) {run['lost']} never invoked: {len(exts)} distinct Extender instances were registered, the set handed to run_all holds {len(run['order'])}", run["order"])
     if not base["ok"]:
         ctx.note("e2e baseline run failed: " + base.get("err", "")[-200:])
         return
